@@ -337,6 +337,7 @@ pub fn extra_modules() -> Vec<ZooModule> {
         out.push(b);
     }
     out.push(name_containment_module());
+    out.extend(c03_nested_shapes());
     out
 }
 
@@ -425,6 +426,58 @@ pub fn c03_shapes(n_max: usize) -> Vec<ZooModule> {
             let name = format!("C03{}{}", if is_set { "T" } else { "S" }, chunk_no);
             out.push(ZooModule { module: Module::simple(&name, defs), conformance: true, group: "c03".into(), meta: serde_json::json!({"n_max": n_max}) });
         }
+    }
+    out
+}
+
+/// C03, second family: components whose types bring a scope of their own - a reference to an alias
+/// of INTEGER (a one-field wrapper struct), a reference to a plain SEQUENCE (all components
+/// mandatory, no marker), an inline plain SEQUENCE - in every shape with <= 2 components.
+/// (DEFAULT slots keep a plain INTEGER: DEFAULT through an alias is an open C09 finding.)
+pub fn c03_nested_shapes() -> Vec<ZooModule> {
+    let mut shapes: Vec<(Vec<u8>, Option<usize>)> = Vec::new();
+    for n in 1..=2usize {
+        for c in 0..3usize.pow(n as u32) {
+            let kinds: Vec<u8> = (0..n).map(|i| ((c / 3usize.pow(i as u32)) % 3) as u8).collect();
+            shapes.push((kinds.clone(), None));
+            for after in 0..n {
+                shapes.push((kinds.clone(), Some(after + 1)));
+            }
+        }
+    }
+    let plain = || Type::Sequence(Fields { comps: vec![comp("q", Type::int(0, 1), Presence::Mandatory), comp("r", Type::Boolean, Presence::Mandatory)], root: None });
+    let mut out = Vec::new();
+    for is_set in [false, true] {
+        let mut defs = vec![Def { name: "AliasInt".into(), tag: None, ty: Type::int(0, 255) }, Def { name: "PlainSeq".into(), tag: None, ty: plain() }];
+        for (k, (kinds, root)) in shapes.iter().enumerate() {
+            let n_root = root.unwrap_or(kinds.len());
+            let comps: Vec<Comp> = kinds
+                .iter()
+                .enumerate()
+                .map(|(i, kind)| {
+                    let ty = match (kind, (i + k) % 3) {
+                        (2, _) => Type::int(0, 255),
+                        (_, 0) => Type::Ref("AliasInt".into()),
+                        (_, 1) => Type::Ref("PlainSeq".into()),
+                        _ => plain(),
+                    };
+                    let tag = if is_set { Some(Tag { class: TagClass::Context, number: if i < n_root { (n_root - 1 - i) as u32 } else { (10 + i) as u32 } }) } else { None };
+                    Comp {
+                        name: format!("f{i}"),
+                        tag,
+                        ty,
+                        presence: match kind {
+                            0 => Presence::Mandatory,
+                            1 => Presence::Optional,
+                            _ => Presence::Default(DefaultVal { lit: Lit::Int(7), via: None }),
+                        },
+                    }
+                })
+                .collect();
+            let f = Fields { comps, root: *root };
+            defs.push(Def { name: format!("Ty{k}"), tag: None, ty: if is_set { Type::Set(f) } else { Type::Sequence(f) } });
+        }
+        out.push(ZooModule { module: Module::simple(if is_set { "C03NestedT" } else { "C03NestedS" }, defs), conformance: true, group: "c03".into(), meta: serde_json::json!({"n_max": 2, "family": "nested"}) });
     }
     out
 }
